@@ -3,7 +3,7 @@
    mapping operations and samples the converter queued).  Converter level: how MMAP2 / FORK / EXEC records build those queues, the
    relative start of a mapping, the call chain -> frame list translation, and the composition for time-ordered recordings. *)
 From SV Require Import Generated.Consts Model.LibMappings Spec.LibMappingsSpec Model.Attribution Spec.AttributionSpec Proofs.AttributionProofs.
-From SV Require Import Model.ConverterMaps Proofs.ConverterMapsProofs.
+From SV Require Import Model.ConverterMaps Proofs.ConverterMapsProofs Generated.VmaBiasGen Proofs.VmaBiasGenProofs.
 From Coq Require Import ZArith.
 Open Scope N_scope.
 
@@ -76,7 +76,26 @@ Theorem C02_e2e_attribution :
   forall pid p, In (pid, p) (incarnations (mrun rs)) -> flush [] (mp_queue p) (mp_samples p) = spec_flush (mp_queue p) (mp_samples p).
 Proof. exact e2e_attribution. Qed.
 
+(* The tie by translation for the bias of a mapped file.  tools/xlate_vb.py re-reads samply/src/linux_shared/svma_file_range.rs on every run and emits
+   SvmaFileRange::encompasses_file_range, ::is_encompassed_by_file_range and compute_vma_bias_impl as Gallina (Generated/VmaBiasGen.v; u64 `+` and
+   `-` checked as in a debug build, `wrapping_sub` wrapping, `iter().find` = the FIRST segment satisfying the closure, `||` short-circuit).  Whatever
+   the translation returns without panicking is what the model's vma_bias - on which rel_start and C02_rel_start_segments rest - returns ... *)
+Theorem C02_vma_bias_translation_sound :
+  forall (segs : list seg) (off avma size : N) (r : option N),
+    g_compute_vma_bias_impl segs off avma size = Some r -> r = vma_bias segs off avma size.
+Proof. exact g_vma_bias_sound. Qed.
+
+(* ... and it does not panic while the file ranges and the mapped address stay inside u64 and no segment that begins before the mapping's file offset
+   would have to begin below address 0 *)
+Theorem C02_vma_bias_translation_total :
+  forall (segs : list seg) (off avma size : N),
+    Forall (seg_in_range off avma) segs -> off + size < 2 ^ 64 ->
+    g_compute_vma_bias_impl segs off avma size = Some (vma_bias segs off avma size).
+Proof. exact g_vma_bias_total. Qed.
+
 Print Assumptions C02_cutoff_constant.
+Print Assumptions C02_vma_bias_translation_sound.
+Print Assumptions C02_vma_bias_translation_total.
 Print Assumptions C02_queue_history.
 Print Assumptions C02_fork_inherits.
 Print Assumptions C02_exec_clears.
@@ -100,3 +119,10 @@ Example ex_c02_e2e :
              MFork 200 100; MSample 200 1020 4660 false [4660]; MExec 200; MSample 200 1030 4660 false [4660]] in
   moutput (mrun rs) = [(200, 1020, [RInLib 3 4660]); (100, 1010, [RRaw 20479; RInLib 3 8192; RInLib 3 4660]); (200, 1030, [RRaw 4660])].
 Proof. vm_compute. reflexivity. Qed.
+
+(* Non-vacuity for the translated bias: a file with packed segments (code at file offset 0, data beginning in the same file page with another
+   address - offset difference), mapped as a whole at 0x7e0000000000: the code segment, found first, is the reference. *)
+Example ex_vma_bias_packed :
+  g_compute_vma_bias_impl [mkSeg 0 0 1520; mkSeg 7736 3640 776] 0 138538465099776 8192 = Some (Some 138538465099776) /\
+  Forall (seg_in_range 0 138538465099776) [mkSeg 0 0 1520; mkSeg 7736 3640 776].
+Proof. split; [vm_compute; reflexivity|]. repeat constructor; cbv; try discriminate; intros; try discriminate; auto. Qed.
